@@ -1888,6 +1888,17 @@ def _line_input(corpus, line):
     raise ValueError("unknown command in case line: " + cmd)
 
 
+# how the known-finding classes were attributed in this run: confirmed = the model of the defect predicts the implementation's
+# answer on that input exactly; refused = same symptom family but not what the defect predicts (reported as a violation);
+# LENIENT = pilota decoded a value where the reference decoder rejects, per reference class (fuzz lines)
+KNOWN_STATS = {"confirmed": {}, "refused": {}}
+LENIENT = {}
+
+
+def _known(kind, cls):
+    KNOWN_STATS[kind][cls] = KNOWN_STATS[kind].get(cls, 0) + 1
+
+
 UTF8_ORACLE = [False]        # C10 only: a decoded generated `string` field must hold UTF-8 (finding F-10b when it does not)
 
 
@@ -1931,7 +1942,7 @@ def judge(corpus, sizes, line, out_text, feature="plain"):
     """None, or (class, why): the verdict of the property oracles on ONE annotated line, from the
     implementation's output and the reference decoder alone"""
     if strip_ann(line).split(" ", 1)[0] in ("grp", "grpdec"):
-        return judge_group(corpus, line, out_text)
+        return judge_group(corpus, line, out_text, feature)
     a = get_ann(line)
     kind = a.get("k", "fuzz")
     o = Out(out_text)
@@ -1979,8 +1990,14 @@ def judge(corpus, sizes, line, out_text, feature="plain"):
         if ref[0] != "ok":
             return ("ref-bug", "the reference decoder rejects its own encoder's bytes: " + ref[1])
         if o.status != "OK":
-            cls = "unknown-at-depth-limit" if kind == "unk-at-limit" else "rejects-valid"
-            return (cls, "a valid encoding is rejected: " + out_text[:120])
+            # F-18a exactly: an unknown field right AT the nesting limit is answered `recursion limit reached`; any other
+            # error class, or the same one at a lower level, is not that finding
+            if kind == "unk-at-limit":
+                if o.status == "ERR" and o.cls == "recursion" and a.get("lvl") == str(RECURSION_LIMIT):
+                    _known("confirmed", "unknown-at-depth-limit")
+                    return ("unknown-at-depth-limit", "a valid encoding is rejected: " + out_text[:120])
+                _known("refused", "unknown-at-depth-limit")
+            return ("rejects-valid", "a valid encoding is rejected: " + out_text[:120])
     # regression of F-10b (repaired): a `string` position with invalid UTF-8 is a decode error, in every check
     if o.status == "OK" and ref == ("err", "utf8"):
         return ("invalid-utf8-accepted", "a `string` that is not UTF-8 was decoded to a value (the reference decoder says: invalid UTF-8)")
@@ -1997,7 +2014,11 @@ def judge(corpus, sizes, line, out_text, feature="plain"):
     # o.status == OK from here on
     if ref[0] == "err":
         if kind == "fuzz":
-            return None            # leniency is not part of these properties (counted by the callers)
+            LENIENT[ref[1]] = LENIENT.get(ref[1], 0) + 1
+            if ref[1] in ("underflow", "delimited", "varint"):
+                # an overrunning length / over-long varint is not leniency: the bytes are not a sequence of records
+                return ("accepts-invalid", "reference verdict %s, pilota decoded a value" % ref[1])
+            return None            # other leniency (wire type of map records, ..) is not part of these properties: counted
         return ("accepts-invalid", "reference verdict %s, pilota decoded a value" % ref[1])
     want = ref[1]
     if o.D is not None:
@@ -2016,9 +2037,13 @@ def judge(corpus, sizes, line, out_text, feature="plain"):
     if d:
         fixed, changed = _fix_negzero(msg, want)
         if changed and msg.wrapper is not None and _cmp_strict(fixed, back[1]) is None:
+            _known("confirmed", "wrapper-negzero-default")
             return ("wrapper-negzero-default", "the %s wrapper leaves -0.0 off the wire, it reads back as +0.0" % msg.wrapper)
         if changed and feature != "edv" and _cmp_strict(fixed, back[1]) is None:
+            _known("confirmed", "map-negzero-default")
             return ("map-negzero-default", "a -0.0 map value is left off the wire and reads back as +0.0 (%s)" % d)
+        if changed:
+            _known("refused", "negzero-default")
         return ("encode-value", "pilota's encoding of the decoded value means something else at %s" % d)
     return None
 
@@ -2068,6 +2093,8 @@ def run_cases(corpus, gen_bins, cases, reenc=False):
                 v = judge(corpus, sizes, l, o, feat)
                 if v:
                     failing.append((cases[ci], "%s: %s [%s build]" % (v[0], v[1], feat), o[:2000]))
+                    if v[0] in ROUNDTRIP_ONLY:
+                        continue            # a confirmed round-trip deviation: recorded; the other lines and checks of the case still run
                     bad.add(ci)
                     break
             if ci in bad:
@@ -2379,7 +2406,22 @@ def gen_group_malformed(corpus, rng, tier):
     return cases
 
 
-def judge_group(corpus, line, out_text):
+def _diff_mod_negzero(msg, want, got, feature):
+    """None if got is want, or want with exactly its -0.0 map values read as +0.0 on a build without pb-encode-default-value
+    (F-05a, counted as confirmed); else where they differ"""
+    d = _cmp_strict(want, got)
+    if d is None:
+        return None
+    fixed, changed = _fix_negzero(msg, want)
+    if changed and feature != "edv" and _cmp_strict(fixed, got) is None:
+        _known("confirmed", "map-negzero-default")
+        return None
+    if changed:
+        _known("refused", "negzero-default")
+    return d
+
+
+def judge_group(corpus, line, out_text, feature="plain"):
     """verdict on a grp / grpdec line from the implementation's answer and the reference codec alone"""
     a = get_ann(line)
     t = strip_ann(line).split()
@@ -2402,8 +2444,8 @@ def judge_group(corpus, line, out_text):
             return ("group-build", "the holder was not built from the parts: " + out_text[:160])
         try:
             for x, y in [(inp[0], I[0])] * (inp[0] is not None) + [(inp[1], I[1])] + list(zip(inp[2], I[2])):
-                d = _cmp_strict(ref_decode(msg, x), ref_decode(msg, y))
-                if d and not _fix_negzero(msg, ref_decode(msg, x))[1]:
+                d = _diff_mod_negzero(msg, ref_decode(msg, x), ref_decode(msg, y), feature)
+                if d:
                     return ("group-part", "pilota's re-encoding of a part means something else: %s" % d)
         except RefError as e:
             return ("ref-bug", "the reference decoder rejects a part: %s" % e)
@@ -2449,8 +2491,8 @@ def judge_group(corpus, line, out_text):
         if (got[0] is None) != (want[0] is None) or len(got[2]) != len(want[2]) or got[3] != want[3]:
             return ("group-decode", "presence / count / scalar differ from the reference reading")
         for x, y in [(want[0], got[0])] * (want[0] is not None) + [(want[1], got[1])] + list(zip(want[2], got[2])):
-            d = compare(x, y)
-            if d and not _fix_negzero(msg, x)[1]:
+            d = _diff_mod_negzero(msg, x, y, feature) and compare(x, y)
+            if d:
                 return ("group-decode", "a group body differs from the reference reading at %s" % d)
     return None
 
@@ -2609,6 +2651,8 @@ def _finish(chk, corpus, gen_bins, model_runner, cases, nontrivial, reenc, dist,
     dist["driver_lines"] = sum(len(c.split("\n")) for c in cases)
     dist["builds"] = sorted(gen_bins)
     dist["outcomes"] = statuses
+    dist["known_finding_attribution"] = {k: dict(v) for k, v in KNOWN_STATS.items()}
+    dist["accepted_where_reference_rejects"] = dict(LENIENT)
     dist["model_lines_compared"] = MODEL_STATS["lines"]
     dist["model_lines_skipped_long_input"] = MODEL_STATS["skipped_long"]
     chk.cov.setdefault("distribution", {}).update(dist)
@@ -2990,11 +3034,11 @@ def _c18_cases(corpus, rng, tier):
     for lvl in (1, 50, 98, 99, 100):
         for unk in (enc_tag(77, 0) + b"\x05", enc_tag(77, 5) + b"\0\0\0\0", enc_tag(77, 2) + b"\x01x", enc_tag(77, 1) + b"\0" * 8):
             add([ann("dec %d %s" % (tree.idx, hx(nest_message([2], lvl, enc_tag(1, 0) + b"\x07"))), k="valid", eq=1, g="deep-plain"),
-                 ann("dec %d %s" % (tree.idx, hx(nest_message([2], lvl, unk + enc_tag(1, 0) + b"\x07"))), k="unk-at-limit", eq=1, g="deep-unknown")],
+                 ann("dec %d %s" % (tree.idx, hx(nest_message([2], lvl, unk + enc_tag(1, 0) + b"\x07"))), k="unk-at-limit", eq=1, g="deep-unknown", lvl=lvl)],
                 "unknown-at-level-%d" % lvl)
     for lvl in (1, 98, 99, 100):
         add([ann("dec 0 %s" % hx(nest_group(5, lvl)), k="valid", eq=1, g="groups"),
-             ann("dec 0 %s" % hx(nest_group(5, lvl, enc_tag(6, 0) + b"\x01")), k="unk-at-limit", eq=1, g="groups+scalar")],
+             ann("dec 0 %s" % hx(nest_group(5, lvl, enc_tag(6, 0) + b"\x01")), k="unk-at-limit", eq=1, g="groups+scalar", lvl=lvl)],
             "scalar-in-group-level-%d" % lvl)
     return cases, kinds
 
